@@ -46,8 +46,11 @@ class RefGen:
         self.names = names
         self.features = set()
         recipe = []
+        self.created_tables = []
         for i, top in enumerate(tops):
             recipe.append(self.template(top["table"], top["nick"], depth=0, top=True))
+            if not top["table"].startswith("__") and top["table"] not in self.created_tables:
+                self.created_tables.append(top["table"])
         return recipe
 
     def ref_target(self):
@@ -77,7 +80,12 @@ class RefGen:
         for k in range(rng.randint(0, 3)):
             fname = f"f{k}"
             r = rng.random()
-            if r < 0.5:
+            if r < 0.08 and getattr(self, "created_tables", None):
+                # a random reference makes the row history active for that table (save_row /
+                # table_counters / nickname ordinals run alongside the id counters)
+                fields[fname] = {"random_reference": self.rng.choice(self.created_tables)}
+                self.features.add("random_reference")
+            elif r < 0.5:
                 fields[fname] = {"reference": self.ref_target()}
                 self.features.add("reference")
             elif r < 0.7 and depth < 2:
